@@ -179,6 +179,23 @@ def _l3_call(na: int, nc: int, qa: int, qc: int) -> bool:
     return base in 'ACN'
 
 
+def _l3b_call_order(pa: int, pc: int, k: int) -> bool:
+    """
+    pre: 0 <= pa <= 5 and 0 <= pc <= 5
+    pre: 2 <= k <= 3
+    post: _
+    """
+    # two candidate bases observed with the SAME multiset of confidences (phred 11, 17, 23), listed in any order: the evidence is
+    # exactly balanced, the call must be N whatever order the reads were added in
+    Q = [1 - 10 ** (-11 / 10), 1 - 10 ** (-17 / 10), 1 - 10 ** (-23 / 10)][:k] if k == 3 else [1 - 10 ** (-11 / 10), 1 - 10 ** (-23 / 10)]
+    PERM = [(0, 1, 2), (0, 2, 1), (1, 0, 2), (1, 2, 0), (2, 0, 1), (2, 1, 0)]
+    oa, oc = pick(PERM, pa), pick(PERM, pc)
+    a = [Q[i] for i in oa if i < len(Q)]
+    c = [Q[i] for i in oc if i < len(Q)]
+    base, p = phredscores_to_base_call({'A': a, 'C': c})
+    return base == 'N'
+
+
 def _l4_md(k: int, m0: bool, m1: bool, m2: bool, m3: bool, c0: bool, c1: bool, c2: bool, c3: bool) -> bool:
     """
     pre: 1 <= k <= 4
@@ -209,6 +226,7 @@ LEMMAS = [
                 'thorough': [dict(id='%s_span%d_%s_indel%d_l%d' % ('three' if t else 'two', sp, 'mm' if mm else 'match', ind, l), pre=['third == %s' % bool(t), 'span == %d' % sp, 'mm == %s' % bool(mm), 'indel == %d' % ind, 'l1 == %d' % l] + (['spliced == False'] if t else ['g2 == 0']))
                              for t in (0, 1) for sp in (-1, 0, 1, 2, 4) for mm in (0, 1) for ind in (0, 1, 2) for l in (1, 2, 3) if not (ind and l < 2)]}),
     dict(name='L3_call_structure', fn='_l3_call', engine='E1', timeout=_T, replay='replay.C15:replay'),
+    dict(name='L3b_call_order_independent', fn='_l3b_call_order', engine='E1', timeout=_T, replay='replay.C15:replay'),
     dict(name='L4_md_roundtrip', fn='_l4_md', engine='E1', timeout=_T, replay='replay.C15:replay'),
 ]
 
